@@ -79,6 +79,12 @@ Normalize(v) == CASE v.t = "arr" -> [v EXCEPT !.items = [i \in 1..Len(v.items) |
                                     [v EXCEPT !.mem = [i \in 1..Len(m) |-> [k |-> m[i].k, v |-> Normalize(m[i].v)]]]
                   [] v.t = "int" -> [v EXCEPT !.d = Strip(v.d)]
                   [] OTHER -> v
+\* the bytes that are signed and hashed (appendix "Signing JSON"): the canonical form of the object without its
+\* top-level "signatures" and "unsigned" members; nothing below the top level is removed
+KSignatures == <<115,105,103,110,97,116,117,114,101,115>>
+KUnsigned == <<117,110,115,105,103,110,101,100>>
+SigningForm(v) == [v EXCEPT !.mem = SelectSeq(Dedup(v.mem), LAMBDA m : m.k \notin {KSignatures, KUnsigned})]
+SigningBytes(v) == Canon(SigningForm(v))
 \* canonical form depends on the value only
 CanonOfNormalize(v) == Ok(v) => (Ok(Normalize(v)) /\ Canon(Normalize(v)) = Canon(v))
 ==============================================================================
